@@ -279,3 +279,43 @@ func VF_C19_CrossClasses(a, b int) {
 	vf.Assert("no-interference-on-the-class-registries", vf.InterferenceG() == 0)
 	vf.Reach("end")
 }
+
+// VF_C19_ClassIdentity: an accessor returns the one class of its type parameters every time - also for interface
+// type parameters (any, error, a collection interface), with other instantiations requested in between.
+func VF_C19_ClassIdentity(kind, _ int) {
+	type stringer interface{ String() string }
+	get := func(which int) any {
+		switch kind {
+		case 0:
+			return [...]any{col.List[any](nil), col.List[error](nil), col.List[stringer](nil), col.List[int](nil)}[which]
+		case 1:
+			return [...]any{age.Sorter[any](), age.Sorter[error](), age.Sorter[stringer](), age.Sorter[int]()}[which]
+		case 2:
+			return [...]any{age.Collator[any](), age.Collator[error](), age.Collator[stringer](), age.Collator[int]()}[which]
+		case 3:
+			return [...]any{col.Set[any](nil), col.Set[error](nil), col.Set[stringer](nil), col.Set[int](nil)}[which]
+		case 4:
+			return [...]any{col.Catalog[int, any](nil), col.Catalog[int, error](nil), col.Catalog[any, int](nil), col.Catalog[int, int](nil)}[which]
+		case 5:
+			return [...]any{age.Iterator[any](), age.Iterator[error](), age.Iterator[stringer](), age.Iterator[int]()}[which]
+		case 6:
+			return [...]any{col.Queue[any](nil), col.Queue[error](nil), col.Queue[stringer](nil), col.Queue[int](nil)}[which]
+		case 7:
+			return [...]any{col.Stack[any](nil), col.Stack[error](nil), col.Stack[stringer](nil), col.Stack[int](nil)}[which]
+		case 8:
+			return [...]any{col.Array[any](nil), col.Array[error](nil), col.Array[stringer](nil), col.Array[int](nil)}[which]
+		}
+		return [...]any{col.Map[int, any](nil), col.Map[int, error](nil), col.Map[any, int](nil), col.Map[int, int](nil)}[which]
+	}
+	var first [4]any
+	for w := 0; w < 4; w++ {
+		first[w] = get(w)
+	}
+	for w := 0; w < 4; w++ {
+		vf.Assert("same-class-on-every-call", get(w) == first[w])
+		for o := 0; o < w; o++ {
+			vf.Assert("different-type-parameters-different-classes", first[w] != first[o])
+		}
+	}
+	vf.Reach("end")
+}
